@@ -100,3 +100,83 @@ def run(F, ctx):
         # informational: leaving a tree with a Union unplanned is correct too (no reordering is always safe)
         ctx.site("trees with a Union: inputs are planned by separate plan_joins calls", f.where(), ok=True, planned_separately=per_input)
     ctx.end_rule()
+
+    # ---- b: SIP sees the variables inside arithmetic operands
+    ctx.rule("R-C02-b", "BodyPredicate::variables reports the variables of both operands of a comparison through Term::variables (arithmetic operands included)", floor=1)
+    bv = F.fn("ast::BodyPredicate::variables")
+    done = False
+    for (bb, adt, pl, mm, other) in bv.enum_switches("ast::BodyPredicate"):
+        if "Comparison" not in mm:
+            continue
+        done = True
+        targets = list(mm.values()) + ([other] if other is not None else [])
+        region = bv.arm_region(targets, mm["Comparison"], stop={bb})
+        tv = [c for c in bv.normal_calls() if c.bb in region and c.resolved == "ast::Term::variables"]
+        # which operand each call looks at: field 0 (left) / field 2 (right) of the Comparison variant
+        seen = set()
+        for c in tv:
+            for o in common.origins(bv, op_local(c.args[0])) | {op_local(c.args[0])}:
+                for i in range(bv.n):
+                    for st in bv.stmts(i):
+                        if st["d"]["l"] == o and st["r"].get("k") in ("ref", "use"):
+                            plx = st["r"].get("p") or (st["r"].get("o") or {}).get("c") or (st["r"].get("o") or {}).get("m") or {}
+                            for x in plx.get("p", []):
+                                if isinstance(x, dict) and x.get("f") in ("0", "2") and x.get("a") == "ast::BodyPredicate":
+                                    seen.add(x["f"])
+        arith_switch = any("Arithmetic" in m2 for (b2, a2, p2, m2, o2) in bv.enum_switches("ast::Term") if b2 in region)
+        ok = seen == {"0", "2"} or arith_switch
+        ctx.site("Comparison arm: variables of both operands collected via Term::variables", bv.where(mm["Comparison"]), ok=ok, operands=sorted(seen))
+        if not ok:
+            ctx.violation("ast::BodyPredicate::variables:R-C02-b:arithmetic-operand-variables-missed", "BodyPredicate::variables looks only at operands that are plain variables: for `X + Z < 10` it reports no variable, SIP rewriting copies the comparison into a helper rule that does not bind Z, and the query fails with `Variable 'Z' not found in schema` with SIP on while it returns rows with SIP off", bv.where(mm["Comparison"]))
+    if not done:
+        raise CheckError("BodyPredicate::variables: no Comparison arm")
+    ctx.end_rule()
+
+    # ---- c: the hash that decides which subplans are shared covers the whole filter predicate
+    ctx.rule("R-C02-c", "subplan sharing: the Filter arm of the subplan hash covers every field of the predicate", floor=1)
+    hn = [x for x in F.bodies if x.endswith("SubplanSharer::hash_ir_recursive")]
+    if len(hn) != 1:
+        raise CheckError("SubplanSharer::hash_ir_recursive not found uniquely")
+    h = F.fn(hn[0])
+    found = False
+    for (bb, adt, pl, mm, other) in h.enum_switches(IR):
+        if "Filter" not in mm:
+            continue
+        found = True
+        region = h.arm_region(list(mm.values()) + ([other] if other is not None else []), mm["Filter"], stop={bb})
+        calls = [c for c in h.normal_calls() if c.bb in region]
+        whole = [c for c in calls if re.search(r"Argument::<'_>::new_debug::<&(mut )?ir::Predicate>$", c.static_args or "") or re.search(r"<ir::Predicate as std::hash::Hash>::hash", c.static_args or "")]
+        custom = [c for c in calls if (c.resolved or "") in F.bodies and c.resolved != h.name and "Predicate" in " ".join(F.fn(c.resolved).ty(i_) for i_ in range(1, F.fn(c.resolved).b["argc"] + 1))]
+        ok = bool(whole)
+        detail = "whole predicate hashed through its derived Debug / Hash"
+        bad_arms = []
+        if not whole and custom:
+            # a hand-written per-variant hash: no field may be ignored
+            ok = True
+            for c in custom:
+                sf = F.syn_for(F.fn(c.resolved))
+                ms = [n for n in syn_walk(sf["body"]) if n.get("e") == "match"]
+                if not ms:
+                    ok = False
+                    continue
+                for arm in ms[0]["arms"]:
+                    p_ = arm["pat"]
+                    cases = p_["cases"] if p_.get("p") == "or" else [p_]
+                    for cse in cases:
+                        while cse.get("p") == "ref":
+                            cse = cse["pat"]
+                        if cse.get("p") != "ts":
+                            continue
+                        used = {n_["p"] for n_ in syn_walk(arm["body"]) if n_.get("e") == "path"}
+                        for k_, e_ in enumerate(cse["elems"]):
+                            if e_.get("p") == "wild" or (e_.get("p") == "ident" and (e_["name"].startswith("_") or e_["name"] not in used)):
+                                bad_arms.append("%s field %d" % (last_seg(cse.get("path", "")), k_))
+            ok = ok and not bad_arms
+            detail = "per-variant hash %s" % ("covers every field" if ok else "ignores " + ", ".join(bad_arms))
+        ctx.site("Filter arm of the subplan hash: %s" % detail, h.where(mm["Filter"]), ok=ok)
+        if not ok:
+            ctx.violation("%s:R-C02-c:predicate-field-not-hashed" % hn[0], "the hash that identifies equal subplans does not cover %s: two filters that differ only there are rewritten to scan one shared view, so with subplan sharing on the later rule returns the earlier rule's rows" % (", ".join(bad_arms) or "the whole predicate"), h.where(mm["Filter"]))
+    if not found:
+        raise CheckError("hash_ir_recursive: no Filter arm")
+    ctx.end_rule()
+
